@@ -1,107 +1,11 @@
-(* validate_schema (Schema/SdlBuild.v) does not depend on the order of the
-   types / directive definitions of the schema (names being unique), nor on
-   applied directives ([strip_schema]). *)
+(* validate_schema (Schema/SdlBuild.v) does not depend on applied directives
+   ([strip_schema]); with Proofs/SdlValidPermProofs.v (order of the types):
+   it is the same for a schema and for what its document declares. *)
 From PyGql Require Import Spec.SdlSpec Schema.SdlPrint Spec.SdlRoundtripSpec.
 From PyGql Require Import Proofs.SdlProofs Proofs.SdlExactProofs Proofs.SdlOrderProofs Proofs.SdlPrintProofs
                           Proofs.SdlDocRoundtripProofs.
+From PyGql Require Export Proofs.SdlValidPermProofs.
 From Coq Require Import Lia Sorting.Permutation.
-
-Lemma forallb_ext {A} (p q : A -> bool) l : (forall x, p x = q x) -> forallb p l = forallb q l.
-Proof. intros H. induction l as [|x l IH]; [reflexivity|]. cbn [forallb]. rewrite H, IH. reflexivity. Qed.
-
-Lemma forallb_map {A B} (f : A -> B) (p : B -> bool) l : forallb p (map f l) = forallb (fun x => p (f x)) l.
-Proof. induction l as [|x l IH]; [reflexivity|]. cbn [map forallb]. rewrite IH. reflexivity. Qed.
-
-(* ---- (II) invariance under equal lookups / permutation ------------------ *)
-Section Lookup.
-  Variables sc sc' : schema.
-  Hypothesis L : forall n, find_type n (s_types sc) = find_type n (s_types sc').
-
-  Lemma skind_lookup n : skind sc n = skind sc' n.
-  Proof. unfold skind. rewrite L. reflexivity. Qed.
-
-  Lemma s_is_input_lookup t : s_is_input sc t = s_is_input sc' t.
-  Proof. unfold s_is_input. rewrite skind_lookup. reflexivity. Qed.
-  Lemma s_is_output_lookup t : s_is_output sc t = s_is_output sc' t.
-  Proof. unfold s_is_output. rewrite skind_lookup. reflexivity. Qed.
-  Lemma s_is_object_lookup n : s_is_object sc n = s_is_object sc' n.
-  Proof. unfold s_is_object. rewrite skind_lookup. reflexivity. Qed.
-
-  Lemma possible_type_lookup a b : possible_type sc a b = possible_type sc' a b.
-  Proof. unfold possible_type. rewrite !L. reflexivity. Qed.
-
-  Lemma is_subtype_lookup t : forall s, is_subtype sc t s = is_subtype sc' t s.
-  Proof.
-    induction t as [a|a IH|a IH]; intros s; cbn [is_subtype].
-    - destruct s; try reflexivity. rewrite possible_type_lookup. reflexivity.
-    - destruct s; try reflexivity. rewrite IH. reflexivity.
-    - destruct s; rewrite ?IH; reflexivity.
-  Qed.
-
-  Lemma valid_args_lookup args : valid_args sc args = valid_args sc' args.
-  Proof.
-    unfold valid_args. f_equal. apply forallb_ext. intros a. rewrite s_is_input_lookup. reflexivity.
-  Qed.
-
-  Lemma valid_fields_lookup fs : valid_fields sc fs = valid_fields sc' fs.
-  Proof.
-    unfold valid_fields. f_equal. apply forallb_ext. intros f.
-    rewrite s_is_output_lookup, valid_args_lookup. reflexivity.
-  Qed.
-
-  Lemma valid_implementation_lookup ofs i : valid_implementation sc ofs i = valid_implementation sc' ofs i.
-  Proof.
-    unfold valid_implementation. rewrite L. destruct (find_type i (s_types sc')) as [[]|]; try reflexivity.
-    apply forallb_ext. intros f. destruct (find_field (sf_name f) ofs); [|reflexivity].
-    rewrite is_subtype_lookup. reflexivity.
-  Qed.
-
-  Lemma valid_type_lookup t : valid_type sc t = valid_type sc' t.
-  Proof.
-    unfold valid_type. f_equal. destruct t; try reflexivity.
-    - rewrite valid_fields_lookup. f_equal. apply forallb_ext. intros i. apply valid_implementation_lookup.
-    - apply valid_fields_lookup.
-    - f_equal. f_equal. apply forallb_ext. intros m. apply s_is_object_lookup.
-    - f_equal. apply forallb_ext. intros f. rewrite s_is_input_lookup. reflexivity.
-  Qed.
-
-  Lemma valid_root_lookup r : valid_root sc r = valid_root sc' r.
-  Proof. destruct r; [apply s_is_object_lookup|reflexivity]. Qed.
-End Lookup.
-
-Lemma forallb_perm {A} (p : A -> bool) l l' : Permutation l l' -> forallb p l = forallb p l'.
-Proof.
-  induction 1 as [|x l l' _ IH|x y l|l l' l'' _ IH1 _ IH2]; cbn [forallb].
-  - reflexivity.
-  - rewrite IH. reflexivity.
-  - destruct (p x), (p y); reflexivity.
-  - rewrite IH1. exact IH2.
-Qed.
-
-Lemma existsb_perm {A} (p : A -> bool) l l' : Permutation l l' -> existsb p l = existsb p l'.
-Proof.
-  induction 1 as [|x l l' _ IH|x y l|l l' l'' _ IH1 _ IH2]; cbn [existsb].
-  - reflexivity.
-  - rewrite IH. reflexivity.
-  - destruct (p x), (p y); reflexivity.
-  - rewrite IH1. exact IH2.
-Qed.
-
-Theorem validate_schema_perm sc sc' :
-  Permutation (s_types sc) (s_types sc') -> Permutation (s_ddefs sc) (s_ddefs sc') ->
-  NoDup (map tdef_name (s_types sc)) ->
-  s_query sc = s_query sc' -> s_mutation sc = s_mutation sc' -> s_subscription sc = s_subscription sc' ->
-  validate_schema sc = validate_schema sc'.
-Proof.
-  intros Pt Pd Hnd Rq Rm Rs.
-  assert (L : forall n, find_type n (s_types sc) = find_type n (s_types sc')).
-  { intros n. apply find_type_perm; assumption. }
-  unfold validate_schema. rewrite <- Rq, <- Rm, <- Rs.
-  rewrite !(valid_root_lookup sc sc' L).
-  rewrite (forallb_perm _ _ _ Pt), (forallb_perm _ _ _ Pd).
-  rewrite (forallb_ext _ _ (s_types sc') (valid_type_lookup sc sc' L)).
-  f_equal. apply forallb_ext. intros d. rewrite (valid_args_lookup sc sc' L). reflexivity.
-Qed.
 
 (* ---- (I) invariance under [strip_schema] -------------------------------- *)
 Lemma find_type_strip n l : find_type n (map strip_tdef l) = option_map strip_tdef (find_type n l).
